@@ -3,6 +3,7 @@ from __future__ import annotations
 import json, math, os, subprocess, sys, warnings
 import numpy as np
 from .. import core, gen
+from . import c19_r4
 
 ID = 'C19'
 LEVEL = 'proof'
@@ -35,6 +36,18 @@ ASSUMPTIONS = ['cooccurence/haralick: pixel values are non-negative integers (th
                'other float images at 1e-9 relative to the sum of absolute values']
 EXHAUSTIVE = {'thorough': True}
 TRUSTED = ['numpy', 'libm log2/exp in the Lean runtime within 1e-9']
+# round 4 (c19_r4.py): option paths of integral / moments, radial polynomial of the Zernike kernel
+RULE += (' Round 4: surf.integral with in_place / every integer and float output dtype / float->integer and integer->float '
+         'conversions / byte-swapped input and requested dtypes x 7 layouts; moments with normalize/normalise, cm=None, '
+         'convert_to_float off; the radial polynomial R_n^l of _zernike.znl for every (n, l) with n <= 24.')
+ASSUMPTIONS += ['integral (round 4): float -> integer conversions only for values inside the target range (numpy cast otherwise '
+                'undefined); in_place is not asked on read-only arrays (the wrapper does not check the flag: observation in '
+                'the report, outside the statement); in_place on a byte-swapped array must raise ValueError and leave it alone',
+                'moments (round 4): normalize=True compared with the exact rational value of the formula of moments.py '
+                '(weights divided by their sum) at 1e-13 x condition number of the two weight sums x size; cases whose weight '
+                'sum is zero or whose condition number exceeds 1e3 are not compared (numpy divides by ~0)',
+                'zernike (round 4): _zernike.znl on one pixel (D=[d], A=[1], P=[1]) against the exact textbook radial '
+                'polynomial at 1e-12 x sum of absolute terms (pow is libm)']
 
 D2 = [(0, 1), (1, 1), (1, 0), (1, -1)]
 D3 = [(1, 0, 0), (1, 1, 0), (0, 1, 0), (1, -1, 0), (0, 0, 1), (1, 0, 1), (0, 1, 1), (1, 1, 1), (1, -1, 1),
@@ -605,6 +618,9 @@ def _eval_integral(case):
             findings.append(dict(kind='property', key='integral:prefix-sum', detail=dict(pos=[k // w, k % w], got=got[k], want=spec[k])))
         elif core.ints(drv['model']) != got:
             findings.append(dict(kind='model', key='integral:model', detail={}))
+        elif core.ints(drv.get('machine', '')) != got:
+            # the recurrence run in the dtype's own arithmetic (MInt: every + and - wraps), C19_integral_machine_arithmetic
+            findings.append(dict(kind='model', key='integral:machine-model', detail={}))
     elif odt.kind == 'f':
         conv = f.astype(odt).astype(np.float64)
         exact = [[math.fsum(float(conv[a, b]) for a in range(i + 1) for b in range(j + 1)) for j in range(w)] for i in range(h)]
@@ -628,6 +644,7 @@ def _eval_integral(case):
 
 EVAL = dict(cooc=_eval_cooc, haralick=_eval_haralick, lbpmap=_eval_lbpmap, lbp=_eval_lbp, zernike=_eval_zernike,
             moments=_eval_moments, integral=_eval_integral)
+EVAL.update(c19_r4.EVAL)
 
 
 def evaluate(cases):
@@ -771,11 +788,15 @@ def cases(rng, tier):
             lo, hi = gen.dt_range(dtype)
             data = [max(lo, min(hi, v)) for v in data]
         out.append(dict(kind='integral', shape=shape, dtype=dtype, data=data, out=outdt, layout=rng.choice(gen.LAYOUTS)))
+    out.extend(c19_r4.cases(rng, N))
     return out
 
 
 def shrink(case):
     k = case.get('kind')
+    if k in c19_r4.EVAL:
+        yield from c19_r4.shrink(case)
+        return
     if k in ('cooc', 'haralick', 'moments', 'integral', 'lbp', 'zernike'):
         shape, data = case['shape'], case['data']
         A = np.array(data, dtype=object).reshape(shape)
